@@ -239,7 +239,7 @@ def _run(ctx: Ctx, box):
                               fields={"what": m["what"].rstrip("0123456789"), "root_kind": m["root"][0], "kinds": kinds,
                                       "flavours": m["variant"], "deep": m["depth"] >= 50, "depth": m["depth"],
                                       # the same case converted correctly at every smaller depth (up to 100 levels)
-                                      "only_at_this_depth": bad_depths.get(m.get("case_id")) == {m["depth"]},
+                                      "only_at_this_depth": bad_depths.get(m.get("case_id")) == {m["depth"]}},
                               msg=json.dumps(m)[:300]))
     nontrivial = {json.dumps([m["topo"], m["root"], m["depth"]]) for m in meta if m["depth"] >= 1}
     box["out"] = Outcome(
